@@ -51,10 +51,10 @@ claim("C14", "DESIGN.md section 4 C14 + section 11",
       "every chain length, operator order, nesting of packaging, projection path and binder names; plus the one-step projection lemmas. "
       "Outside the theorem and stated in it: queries mentioning First (covered by the node-kind oracle and the exact model/code correspondence "
       "on generated disciplined chains incl. First-wrapped packages, function and method form through change_extension_functions_to_calls, "
-      "3 naming schemes; one open known finding there), operator lambdas with other than one parameter, boolean dictionary keys.",
+      "3 naming schemes; one open known finding there), operator lambdas with other than one parameter, boolean dictionary keys, starred nodes (not typable: a literal with a starred element is deliberately not projected, F37).",
       "Stated over the simplifier model; the oracle checks simp(ext(q)) as backends run it.")
 claim("C18", "DESIGN.md section 4 C18 + section 11",
-      "proof: Coq theorem simp_no_crash (Proofs/SimplifyTotal.v) - for every fuel, well-formed stack, counter and well-formed query the simplifier model never returns Crash, and an Ok result is again well-formed (no raw slot, operators applied to a source and a lambda, dictionary literals pair keys with values) - plus: the dedicated index error arises exactly for a constant index outside a tuple/list literal; non-constant, wrong-type, negative-in-range and absent-key selectors leave a proper node around the visited sub-terms; a called lambda with a starred argument is left as a call (F29); fuel_is_only_a_budget / more_fuel_same_outcome (Proofs/SimplifyFuel.v): any outcome other than OutOfFuel is the same for every larger fuel. Partial in one respect: termination (existence of a sufficient fuel) is not proved; it is exercised by the correspondence (OutOfFuel vs RecursionError is counted) and the unparse+compile oracle on C02's grammar plus odd selectors, shared selectors and starred arguments.",
+      "proof: Coq theorem simp_no_crash (Proofs/SimplifyTotal.v) - for every fuel, well-formed stack, counter and well-formed query the simplifier model never returns Crash, and an Ok result is again well-formed (no raw slot, operators applied to a source and a lambda, dictionary literals pair keys with values) - plus: the dedicated index error arises exactly for a constant index outside a tuple/list literal; non-constant, wrong-type, negative-in-range and absent-key selectors leave a proper node around the visited sub-terms; a called lambda with a starred argument is left as a call (F29) and a literal with a starred element is not projected (F37, starred_literal_left_intact); fuel_is_only_a_budget / more_fuel_same_outcome (Proofs/SimplifyFuel.v): any outcome other than OutOfFuel is the same for every larger fuel. Partial in one respect: termination (existence of a sufficient fuel) is not proved; it is exercised by the correspondence (OutOfFuel vs RecursionError is counted) and the unparse+compile oracle on C02's grammar plus odd selectors, shared selectors and starred arguments.",
       'wfq mirrors harness/props/c18.py:wellformed. Termination is outside what is proved (the simplifier re-visits its own output).')
 claim("C19", "DESIGN.md section 4 C19",
       "proof: Coq theorems (agg_exact, agg_total, agg_complete, agg_sem, max/min_with_zero) about the executable model of aggregate_node_transformer whose "
